@@ -151,6 +151,7 @@ func (e *EventEmitter) handleSubscriber(ctx context.Context, sub event.Subscript
 		condProcess.L.Lock()
 		for ctx.Err() == nil {
 			if queue.Len() == 0 {
+				verifhook.Point("legacy.before-wait", cevent)
 				condProcess.Wait()
 				continue
 			}
